@@ -41,7 +41,7 @@ CHECKS = {
    note='model filesystem; <=3 directories; handler policies by call position'),
  'C10': dict(
    text='Loader operation sequences (verify+lookups; update without save; update+save; failing update; save whose k-th '
-        'dump fails; '
+        'dump fails) '
         'update) on a model tree with a complete write log: nothing is logged before save or '
         'by read-only operations, only Manifest paths are written, data nodes keep identity and '
         'attributes, DIST/IGNORE/TIMESTAMP multisets and entry types are preserved, and entries '
